@@ -41,11 +41,15 @@ def sweep(kind, ids, jobs=8):
     """kind = 'seeded' (expect exit 1) or 'refactors' (expect exit 0); runs in parallel on scratch copies."""
     from concurrent.futures import ThreadPoolExecutor
     items = []
+    outside = {}     # seeds judged to lie outside what the property statement quantifies over: not claimed, expected exit 0 + a note
     for i in ids:
         d = os.path.join(VERIF, kind, i)
         mp = os.path.join(d, "meta.json")
         if os.path.isfile(mp) and os.path.isfile(os.path.join(d, "patch.diff")):
-            items.append((i, d, json.load(open(mp))["property"]))
+            m = json.load(open(mp))
+            items.append((i, d, m["property"]))
+            if m.get("outside_statement"):
+                outside[i] = m["outside_statement"]
     def one(it):
         i, d, prop = it
         rc, out = check_with_patch(os.path.join(d, "patch.diff"), prop)
@@ -61,6 +65,10 @@ def sweep(kind, ids, jobs=8):
             if kind == "seeded":
                 v = {1: "DETECTED", 0: "missed", 2: "analysis-error"}.get(rc, f"exit {rc}")
                 ok = rc == 1
+                if i in outside:
+                    rec[i]["outside_statement"] = outside[i]
+                    v = "outside the statement (not claimed), exit %d" % rc
+                    ok = rc in (0, 1)
             else:
                 v = {0: "silent", 1: "FALSE-ALARM", 2: "analysis-error"}.get(rc, f"exit {rc}")
                 ok = rc == 0
